@@ -10,6 +10,8 @@ Violations(line) ==
      R("classification", o.class \notin Classes(in))
      \* the plugin's own structured error is handed out with the message and the metadata the plugin printed
   \cup R("structured-error-content", o.errContent \notin {"n/a", "ok"})
+     \* a successful call hands back what ITS process printed (also with other calls in flight: NonInterference of PluginOverlap)
+  \cup R("reply-content", o.replyContent \notin {"n/a", "ok"})
      \* a call returns within a bounded delay after its context expired, whatever the plugin or its descendants do
   \cup R("unbounded-delay", in.timing # "immediate" /\ o.lateMs > 0)
      \* the host never buffers more than the cap
